@@ -11,6 +11,16 @@ Streams (DESIGN 3.2):
                                                      instruction, no bare-number / empty / parameterless keyword line
   multi  str(FVARs) / repr(SFACTable)            vs  model `renderFvars` / `sfacLine` (theorems fvar_lines_valid, sfac_line_valid)
 Observation = the physical lines of the written text, nothing else.
+
+File stream oracles (all on the physical lines of the written file, read by the comment-aware lexer `logicalC` of the
+specification: everything behind '!' is ignored, REM is never continued, a blank-led line that continues nothing is a comment):
+  width <= 80; every flagged line is followed by a blank-led line (`badContinuations`); no instruction object whose own text
+  ends in a continuation mark; lexer(written file) = lexer(unwrapped item texts); BY CONSTRUCTION: the restraint-like
+  instructions of the generated input (whatever its layout: breaks anywhere, '=' marks with comments behind them, '=' and
+  '!' inside comments) and the texts handed to add_line / replace_line / Command.set / insert_anis are in the file with
+  exactly their tokens; no bare number / empty / parameterless keyword line; file text = model text.
+The comment-aware reading is a harness-level oracle: the theorems are about the plain lexer (`code_eq_self`,
+`flaggedC_eq_flagged` show that both agree on comment-free, non-REM lines).
 """
 import os
 import shutil
@@ -124,9 +134,12 @@ def random_line(rng, cls):
               for _ in range(rng.randint(14, 40))]
         s = ' '.join([kw] + ts)
     elif cls == 'comment':
-        body = fill_to(rng, rng.randint(30, 120), (1,), first=kw)
-        com = ' '.join(hyphen_token(rng) if rng.random() < 0.2 else word(rng, rng.randint(1, 8)) for _ in range(rng.randint(1, 20)))
-        s = body + ' ! ' + com
+        # short and long instructions with short and long comments (the wrap falls in front of, on and behind the '!'),
+        # comments that contain '=' and '!' and end in '='
+        body = fill_to(rng, rng.choice([rng.randint(8, 60), rng.randint(60, 84), rng.randint(84, 200)]), (1,), first=kw)
+        com = ' '.join(hyphen_token(rng) if rng.random() < 0.2 else rng.choice(COMMENTS) if rng.random() < 0.3 else word(rng, rng.randint(1, 8))
+                       for _ in range(rng.choice([1, 3, 8, 20, 40])))
+        s = body + rng.choice([' ! ', ' !', '  !  ']) + com
     elif cls == 'blank-runs':
         ts = [tok(rng, rng.randint(1, 9)) for _ in range(rng.randint(5, 30))]
         s = kw
@@ -167,8 +180,97 @@ def restraint_line(rng, names, hy=False):
     return s
 
 
+RESTR_KW = {'SADI', 'DFIX', 'DANG', 'EADP', 'FLAT', 'SIMU', 'RIGU', 'DELU', 'ISOR', 'CHIV', 'SAME', 'BIND', 'FREE', 'CONF', 'MPLA',
+            'BOND', 'HTAB', 'ANIS'}
+COMMENTS = ['target d=1.45', 'esd=0.02', 'see text', 'a=b', 'the C-C and C-O distances', 'x ! y', '=', 'checked = ok =', 'e.s.d. = 0.02 !']
+
+
+def code_tokens(ln):
+    return ln.split('!')[0].split()
+
+
+def layout_input(rng, ln, force=False):
+    """physical lines (<= 80 columns) of one instruction of the INPUT file, the generator's own layout, independent of the
+    code under test: breaks between any two tokens, ' =' / '  =' marks, 1..5 blanks in front of continuation lines,
+    '!' comments behind continuation marks and on the last line, with and without '=' or '!' in the comment text
+    (a mark inside a comment is not a mark, so a comment is only ever put behind the code of its physical line)"""
+    if ln.startswith(('TITL', 'REM')):
+        return [ln[:COLS]]
+    code, _, comment = ln.partition(' !')
+    toks = code.split()
+    mode = rng.choice(['greedy', 'greedy', 'ragged', 'ragged', 'early'])
+    cmode = rng.choice(['none', 'none', 'last', 'marks', 'first', 'all'])
+    if len(code) <= COLS and not force and rng.random() < 0.5:
+        mode = 'single'
+
+    def limit():
+        return COLS - 3 if mode == 'greedy' else 10 ** 6 if mode == 'single' else rng.randint(24, COLS - 3)
+
+    def close(cur, last, k):
+        text = cur if last else cur + rng.choice([' =', ' =', '  ='])
+        want = cmode == 'all' or (cmode == 'last' and last) or (cmode == 'marks' and not last) or (cmode == 'first' and k == 0 and not last)
+        if last and comment and cmode == 'none':
+            want = True
+        if want:
+            c = comment.strip() if (last and comment) else rng.choice(COMMENTS)
+            cand = text + rng.choice([' ! ', ' !', '  ! ']) + c
+            if len(cand) <= COLS:
+                text = cand
+        return text
+
+    res, cur, lim = [], toks[0], limit()
+    for t in toks[1:]:
+        cand = cur + ' ' * (1 if mode == 'single' else rng.choice([1, 1, 1, 2])) + t
+        if len(cand) > lim and len(cur.split()) >= (2 if not res else 1):
+            res.append(close(cur, False, len(res)))
+            cur = ' ' * rng.choice([1, 2, 3, 3, 5]) + t
+            lim = limit()
+        else:
+            cur = cand
+    res.append(close(cur, True, len(res)))
+    assert all(len(x) <= COLS for x in res), res
+    return res
+
+
+def edit_op(rng, names, restr, natoms):
+    """one step of an edit history; every API that puts text into the file gets short and long texts"""
+    r = rng.random()
+    text = restraint_line(rng, names)
+    if rng.random() < 0.5:      # long texts: the class the writer has to wrap
+        while len(text) <= COLS:
+            text = restraint_line(rng, names)
+    if r < 0.2:
+        return dict(op='add_line', where=rng.choice(['unit', 'fvar', 'atom', 'first']), text=text)
+    nheader = len(restr)
+    if r < 0.4 and nheader:
+        return dict(op='replace_line', target=rng.randrange(nheader), text=text)
+    if r < 0.5 and nheader:
+        # Command.set(text): the new text of the same instruction (keyword and numeric parameters kept, new atom list)
+        j = rng.randrange(nheader)
+        head = []
+        for t in code_tokens(restr[j]):
+            if head and not (t[0].isdigit() or t[0] in '+-.'):
+                break
+            head.append(t)
+        n = rng.choice([2, 4, 12, 30, 50]) if head[0] not in ('BIND', 'FREE', 'HTAB') else 2
+        return dict(op='set', target=j, text=' '.join(head + [rng.choice(names) for _ in range(n)]))
+    if r < 0.6:
+        k = rng.choice([0, 1, 3, 8, 20, 40])
+        return dict(op='insert_anis', atoms=' '.join(rng.choice(names) for _ in range(k)), residue=rng.choice(['', '', 'CCF3', '*']) if k else '')
+    if r < 0.65:
+        return dict(op='insert_frag', n=rng.randint(1, 6))
+    if r < 0.75:
+        return dict(op='delete', atom=rng.randrange(natoms), via=rng.choice(['atomid', 'method']))
+    if r < 0.85:
+        return dict(op='element', atom=rng.randrange(natoms), el=rng.choice(ELEMENTS))
+    if r < 0.92:
+        return dict(op='isotropic', atom=rng.randrange(natoms))
+    return dict(op='rename', atom=rng.randrange(natoms), name=word(rng, rng.randint(1, 4), 'CNOXYZ') + str(rng.randint(1, 9)))
+
+
 def make_file_case(rng, cls=None):
-    cls = cls or rng.choice(['restraints', 'restraints', 'aniso', 'sfac', 'fvars', 'free-text', 'edits', 'edits', 'size', 'sfac-explicit'])
+    cls = cls or rng.choice(['restraints', 'restraints', 'aniso', 'sfac', 'fvars', 'free-text', 'edits', 'edits', 'edits', 'size',
+                             'sfac-explicit', 'layout', 'layout', 'layout'])
     nel = rng.randint(1, 5)
     if cls == 'sfac':
         nel = rng.randint(18, 45)
@@ -195,7 +297,7 @@ def make_file_case(rng, cls=None):
     names = [a['name'] for a in atoms]
     header = []
     hy = cls == 'free-text'
-    if cls in ('restraints', 'edits', 'free-text'):
+    if cls in ('restraints', 'edits', 'free-text', 'layout'):
         for _ in range(rng.randint(2, 8)):
             header.append(restraint_line(rng, names, hy))
     if cls == 'free-text':
@@ -211,20 +313,13 @@ def make_file_case(rng, cls=None):
         explicit = 'SFAC ' + rng.choice(['Xx', 'Ge', 'Kr']).upper() + ' ' + ' '.join(f'{rng.uniform(0.1, 30):.4f}' for _ in range(14))
     ops = []
     if cls == 'edits':
-        for _ in range(rng.randint(1, 4)):
-            r = rng.random()
-            if r < 0.4:
-                ops.append(dict(op='add_line', where=rng.choice(['unit', 'fvar', 'atom', 'first']), text=restraint_line(rng, names)))
-            elif r < 0.6:
-                ops.append(dict(op='delete', atom=rng.randrange(len(atoms)), via=rng.choice(['atomid', 'method'])))
-            elif r < 0.8:
-                ops.append(dict(op='element', atom=rng.randrange(len(atoms)), el=rng.choice(ELEMENTS)))
-            elif r < 0.9:
-                ops.append(dict(op='isotropic', atom=rng.randrange(len(atoms))))
-            else:
-                ops.append(dict(op='rename', atom=rng.randrange(len(atoms)), name=word(rng, rng.randint(1, 4), 'CNOXYZ') + str(rng.randint(1, 9))))
+        restr = [h for h in header if h.split()[0].upper()[:4] in RESTR_KW]
+        ops = [edit_op(rng, names, restr, len(atoms)) for _ in range(rng.randint(1, 4))]
+    # the layout of the input file is part of the case (replays do not depend on the generator)
+    force = cls == 'layout'
+    header_phys = [layout_input(rng, h, force) for h in header]
     return dict(kind='file', cls=cls, titl=titl, sfac=sfac, unit=unit, fvars=fvars, fvar_per_line=rng.choice([7, 7, 3, 10]),
-                header=header, atoms=atoms, explicit=explicit, ops=ops)
+                header=header, header_phys=header_phys, atoms=atoms, explicit=explicit, ops=ops)
 
 
 def render_file(case):
@@ -232,9 +327,15 @@ def render_file(case):
     fs.header = list(case['header'])
     fs.fvar_per_line = case['fvar_per_line']
     fs.body = [gen.AtomSpec(a['name'], a['sfac'], tuple(a['xyz']), a['sof'], tuple(a['u'])) for a in case['atoms']]
+    phys = case.get('header_phys')
+    if phys:
+        fs.header = [f'\x00{i}' for i in range(len(phys))]
     lines = fs.lines()
     out = []
     for ln in lines:
+        if ln.startswith('\x00'):
+            out.extend(phys[int(ln[1:])])
+            continue
         if case.get('explicit') and ln.startswith('UNIT '):
             out.append(case['explicit'])
             ln = ln + ' 1'
@@ -315,6 +416,15 @@ def observe_file(case, tmp):
         return dict(error=f'parse: {len(shx.atoms)} atoms, generated {len(case["atoms"])}', input=text)
     res = dict(input=text, stages=[])
     atoms = list(shx.atoms)
+    # by construction: the token sequences of the restraint-like instructions the file must contain (multiset)
+    want = [code_tokens(h) for h in case['header'] if h.split()[0].upper()[:4] in RESTR_KW]
+    targets = list(want)        # the generated header instructions, addressed by the edit ops by position
+
+    def find_item(toks):
+        for it in shx._reslist:
+            if not (hasattr(shx, '_is_included') and shx._is_included(it)) and it != '' and code_tokens(str(it)) == toks:
+                return it
+        raise LookupError('instruction not in the file')
 
     def stage(name):
         try:
@@ -323,7 +433,7 @@ def observe_file(case, tmp):
         except Exception as e:
             res['stages'].append(dict(name=name, error=f'{type(e).__name__}'))
             return
-        st = dict(name=name, items=items, written=written)
+        st = dict(name=name, items=items, written=written, want=[list(w) for w in want])
         try:
             st['fvars'] = (list(shx.fvars.as_stringlist), str(shx.fvars))
             if not case.get('explicit'):
@@ -338,6 +448,23 @@ def observe_file(case, tmp):
             if op['op'] == 'add_line':
                 pos = dict(unit=lambda: shx.unit.position, fvar=lambda: shx.fvars.position, atom=lambda: atoms[0].index, first=lambda: 0)[op['where']]()
                 shx.add_line(pos, op['text'])
+                want.append(code_tokens(op['text']))
+            elif op['op'] in ('replace_line', 'set'):
+                old = targets[op['target']]
+                obj = find_item(old)
+                if op['op'] == 'set':
+                    obj.set(op['text'])          # Command objects only; AttributeError otherwise (op skipped)
+                else:
+                    shx.replace_line(obj, op['text'])
+                want.remove(old)
+                want.append(code_tokens(op['text']))
+                targets[op['target']] = code_tokens(op['text'])
+            elif op['op'] == 'insert_anis':
+                shx.insert_anis(atoms=op['atoms'], residue=op['residue'])
+                want.append((['ANIS' + ('_' + op['residue'] if op['residue'] else '')] + op['atoms'].split()) if op['atoms'] else ['ANIS'])
+            elif op['op'] == 'insert_frag':
+                dbatoms = [[f'C{i + 1}', 1, f'{0.1 * i:.5f}', f'{1.0 + 0.25 * i:.5f}', f'{-0.5 * i:.5f}'] for i in range(op['n'])]
+                shx.insert_frag_fend_entry(dbatoms, [1, 1, 1, 90, 90, 90])
             elif op['op'] == 'delete':
                 a = atoms[op['atom']]
                 if op['via'] == 'atomid':
@@ -421,6 +548,15 @@ def evaluate_lines(ctx, cases):
             elif sp['nonblank'] != [r['nonblank']]:
                 ctx.fail('C06|line|chars|long-token', 'characters lost or added while splitting an over-long token',
                          dict(payload, expected=r['nonblank'], actual_logical=sp['nonblank']))
+        # comment-aware reading (SHELXL ignores everything behind '!'; a line that begins with a blank and continues nothing
+        # is a comment line): the code part of the instruction comes back token for token, no dangling continuation.
+        # Harness-level oracle (the theorems are about the plain lexer); REM/TITL are free text and never continued.
+        codepart = c['s'].split('!')[0]
+        if '!' in c['s'] and hyp['noNL'] and hyp['noLongTok'] and not codepart.rstrip().endswith('=') and \
+                not c['s'].lstrip().upper().startswith(('REM', 'TITL')) and codepart.split() and not c['s'].startswith(' '):
+            if sp['logicalC'] != [r['code_tokens']] or sp['bad_cont']:
+                ctx.fail('C06|line|code-tokens|comment', 'read with comments ignored, the written lines do not give back the code part of the instruction',
+                         dict(payload, expected=[r['code_tokens']], actual_logical=sp['logicalC']))
         # implementation vs model (exact text: the property is about the text)
         if o != r['model']:
             hy = '-' in c['s']
@@ -444,8 +580,10 @@ def evaluate_files(ctx, cases):
         for si, st in enumerate(ob.get('stages', [])):
             if 'error' in st:
                 continue
-            reqs.append(dict(p='C06', op='file', text=st['written']))
+            reqs.append(dict(p='C06', op='lex', text=st['written']))
             idx.append((ci, si, 'file', None))
+            reqs.append(dict(p='C06', op='lex', text=''.join(t + '\n' for _, t in st['items'])))
+            idx.append((ci, si, 'expected', None))
             for k, (_, text) in enumerate(st['items']):
                 reqs.append(dict(p='C06', op='wrap', s=text))
                 idx.append((ci, si, 'item', k))
@@ -467,7 +605,11 @@ def evaluate_files(ctx, cases):
         if 'error' in ob:
             ctx.fail('C06|file|parse', f'generated valid file not parsed as expected: {ob["error"]}', dict(case=case, stream='file', actual=ob), kind='correspondence')
             continue
+        nfail0 = None
         for si, st in enumerate(ob['stages']):
+            if nfail0 is not None and len(ctx.failures) > nfail0:
+                break       # the later stages of the same history repeat the failure of this one
+            nfail0 = len(ctx.failures)
             stage = st['name'].split(':')[-1]
             payload = dict(case=case, stream='file', stage=st['name'], input=ob['input'])
             if 'error' in st:
@@ -475,6 +617,7 @@ def evaluate_files(ctx, cases):
                 continue
             rs = per[(ci, si)]
             fr = [r for k, _, r in rs if k == 'file'][0]
+            er = [r for k, _, r in rs if k == 'expected'][0]
             items = [r for k, _, r in rs if k == 'item']
             written = st['written']
             ctx.count(['file', ob['input'], st['name'], [o for o in c['ops'][:si]]], nontrivial=fr['maxlen'] > 70 or '=' in written,
@@ -487,14 +630,25 @@ def evaluate_files(ctx, cases):
                 ctx.fail('C06|file|width|' + ('continuation' if kinds == ['continuation'] else 'first'),
                          f'written file has a physical line of {fr["maxlen"]} columns (> {COLS}): {fr["long"][0]!r}',
                          dict(payload, expected=f'<= {COLS} columns', long=fr['long']))
-            # 2. the lexer gives back the token sequence of every instruction
-            exp = []
+            # 2a. shape of the file: a line flagged as continued is followed by a line that begins with a blank
+            for a, b in fr['bad_cont']:
+                kw = first_upper(a.split())
+                ctx.fail(f'C06|file|shape|{"continuation-not-blank" if b is not None else "dangling-at-eof"}|{kw if not a.startswith(" ") else "continuation"}',
+                         f'the written line {a!r} ends in a continuation mark but ' +
+                         (f'the next line {b!r} does not begin with a blank' if b is not None else 'nothing follows'),
+                         dict(payload, expected='a continuation line that begins with a blank', lines=[a, b]))
+            # 2b. an instruction object whose own text ends in a continuation mark is not a complete instruction
             for (tname, text), ir in zip(st['items'], items):
-                exp.extend(merge_cont(ir['parts']) if tname == 'str' else ir['parts'])
+                if tname != 'str' and ir['cont']:
+                    ctx.fail(f'C06|file|item-ends-in-continuation|{first_upper(text.split())}|item={tname}',
+                             f'the {tname} object to be written has the text {text[-60:]!r}, which ends in a continuation mark',
+                             dict(payload, expected='a complete instruction', item=text))
+            # 2c. the (comment-aware) lexer gives back, from the wrapped file, the token sequences of the unwrapped instructions
+            exp = er['logical']
             if fr['logical'] is None:
                 ctx.fail('C06|file|dangling-continuation', 'the last physical line of the written file is flagged as continued', payload)
-            elif fr['logical'][:-1] != exp or fr['logical'][-1] != []:
-                got = fr['logical'][:-1]
+            elif exp is not None and fr['logical'] != exp:
+                got = fr['logical']
                 k = next((i for i, (a, b) in enumerate(zip(got, exp)) if a != b), min(len(got), len(exp)))
                 e, g = (exp[k] if k < len(exp) else None), (got[k] if k < len(got) else None)
                 hy = bool(e) and any('-' in t for t in e)
@@ -503,11 +657,25 @@ def evaluate_files(ctx, cases):
                 ctx.fail(f'C06|file|tokens|{what}|{first_upper(e or [])}',
                          f'joining the continuation lines of the written file does not give back the tokens of instruction {k}: {g} for {e}',
                          dict(payload, expected=e, actual_logical=g))
+            # 2d. by construction: the restraint-like instructions of the generated file and of the edit history are in the
+            #     written file with exactly their tokens (independent of what the objects say about themselves)
+            gotr = sorted(l for l in (fr['logical'] or []) if l and l[0].upper().split('_')[0][:4] in RESTR_KW)
+            wantr = sorted(st['want'])
+            if fr['logical'] is not None and gotr != wantr:
+                missing = [w for w in wantr if w not in gotr]
+                extra = [g for g in gotr if g not in wantr]
+                kw = first_upper((missing or extra or [['?']])[0])
+                hist = '+'.join(sorted({o['op'] for o in c['ops'][:si]})) or 'none'
+                ctx.fail(f'C06|file|instruction-tokens|{kw}|history={hist}',
+                         f'after {st["name"]} the written file does not hold the generated instruction(s) with their tokens: '
+                         f'missing {missing[:2]}, instead {extra[:2]}',
+                         dict(payload, expected=missing, actual_logical=extra))
             # 3. no bare number, no empty line, no keyword without its parameters
-            lg = (fr['logical'] or [[]])[:-1]
             pos = 0
             for (tname, text), ir in zip(st['items'], items):
                 for part in (merge_cont(ir['parts']) if tname == 'str' else ir['parts']):
+                    if not part and text.split():
+                        continue        # an empty line inside / behind a multi-line text (FRAG ... FEND entry): harmless
                     bare = (not part) or part[0][0] in '0123456789.-=' or (part[0][0] == '+' and len(part[0]) > 1 and part[0][1] in '0123456789.')
                     if bare:
                         kind = 'empty-line' if not part else 'bare-number'
@@ -568,8 +736,9 @@ def run(ctx):
                 '1..12 ending on every column 70..90 x five kinds of remainder x two separator styles, plus random classes (short tokens, '
                 'atom names, tokens > width, hyphenated words, signed numbers, "!" comments, runs of blanks, "=" inside); file stream: '
                 'by-construction files (long restraint lists, anisotropic atoms, 1..45 SFAC elements, 1..99 FVARs, free text, SIZE, '
-                'explicit SFAC) written with write_shelx_file after read and after every step of an edit history (add_line, delete, element, '
-                'isotropic, rename); distinct by input text (+ history); non-trivial = instruction longer than 70 characters / file with a '
+                'explicit SFAC; input layouts with breaks between any two tokens and "!" comments behind continuation marks, with "=" and "!" '
+                'in the comment) written with write_shelx_file after read and after every step of an edit history (add_line, replace_line, '
+                'Command.set, insert_anis, insert_frag_fend_entry with short and > 80 column texts, delete, element, isotropic, rename); distinct by input text (+ history); non-trivial = instruction longer than 70 characters / file with a '
                 'line beyond 70 columns or a continuation')
     ctx.assumptions = ['the only white space inside an instruction is the blank (no tabs, which textwrap would expand)',
                        'wrap_tokens: the instruction does not itself end in "=" and no token is longer than width - indent (75); '
@@ -580,8 +749,8 @@ def run(ctx):
     for cls in LINE_CLASSES:
         cases += [random_line(rng, cls) for _ in range(n)]
     ctx.extra['grid'] = 'token of length 1..12 ending at every column 70..90, followed by nothing / a short token / blanks / one more line / two more lines'
-    nf = ctx.budget(250, 4000)
-    fcls = ['restraints', 'aniso', 'sfac', 'fvars', 'free-text', 'edits', 'size', 'sfac-explicit']
+    nf = ctx.budget(600, 4000)
+    fcls = ['restraints', 'aniso', 'sfac', 'fvars', 'free-text', 'edits', 'size', 'sfac-explicit', 'layout']
     cases += [make_file_case(rng, fcls[i % len(fcls)] if i < 4 * len(fcls) else None) for i in range(nf)]
     for i in range(0, len(cases), 400):
         evaluate(ctx, cases[i:i + 400])
